@@ -469,7 +469,7 @@ fn corpus(ctx: &Ctx) -> Vec<Case> {
         ops.push(sc.clone());
         cs.push(Case { n, class: "scan", ops });
     }
-    // RANDOMKEY looks at shard 0 only: one key that does not live there
+    // RANDOMKEY looked at shard 0 only before fix 4d9bd05: one key that does not live there
     let k = p.iter().find(|k| ctx.gen(k, 4) != 0).unwrap();
     cs.push(Case {
         n: 4,
@@ -603,7 +603,7 @@ fn explained(ctx: &Case, c: &Ctx) -> bool {
         x if x.starts_with("two-key") => ctx.ops.iter().any(|o| o.is_two_key() && c.gen(&o.keys[0], n) != c.gen(&o.keys[1], n)),
         "multi-key:MSETNX" => ctx.ops.iter().any(|o| o.name == "MSETNX" && o.keys.iter().any(|k| c.gen(k, n) != c.gen(&o.keys[0], n))),
         "scan" => true,
-        "randomkey" => true,
+        // RANDOMKEY asks every shard since fix 4d9bd05: a difference is no longer expected
         _ => false,
     }
 }
@@ -612,7 +612,6 @@ fn signature(class: &str) -> String {
     match class {
         "mixed-any" => "C03:route-hash-mismatch:fast_set+generic".into(),
         "scan" => "C03:scan-cursor".into(),
-        "randomkey" => "C03:randomkey-shard0".into(),
         x => format!("C03:{}", x),
     }
 }
@@ -667,42 +666,163 @@ async fn run_case(out: &mut Out, ctx: &Ctx, case: &Case) {
     out.sample(json!({"shards": case.n, "class": case.class, "ops": case.ops.iter().take(12).map(|o| o.line()).collect::<Vec<_>>()}));
 }
 
-/// Oracle-only (expiry is not part of the C03 model): the fast/pooled/batch paths never call
-/// `set_time`, so they judge expiry against the clock their shard saw at its last GENERIC
-/// command.  On one shard every generic command refreshes that clock; on N shards only commands
-/// for the same shard do — the answer of `fast_get` after a TTL ran out depends on the shard count.
-async fn stale_clock_probe(out: &mut Out, ctx: &Ctx) {
-    let p = pool();
-    let n = 4;
-    // k: both hashes agree (so the defect is not the routing one); k2: lives on another shard
-    let k = match p.iter().find(|k| ctx.gen(k, n) == h_bytes(k, n)) {
-        Some(k) => k.clone(),
-        None => return,
-    };
-    let k2 = p.iter().find(|x| ctx.gen(x, n) != ctx.gen(&k, n)).unwrap().clone();
-    let mut answers = Vec::new();
-    for shards in [1usize, n] {
-        let (st, sim) = new_state_ctx(shards);
-        let mut c = Command::set(s(&k), sds(b"v"));
-        if let Command::Set { ref mut px, .. } = c {
-            *px = Some(100);
+/// Timed streams: per-shard clocks and key expiry (model: `Shards.Clock.execNT`).
+/// The fast / pooled messages carried no virtual time before the fix "fast/pooled/batch shard
+/// messages carry the virtual time": they judged expiry against the clock their shard saw at
+/// its last GENERIC command, which on N shards is refreshed only by commands for that shard.
+#[derive(Clone, Debug)]
+struct TOp {
+    now: u64,
+    name: &'static str,
+    key: Vec<u8>,
+    val: Vec<u8>,
+    ms: i64,
+}
+
+impl TOp {
+    fn line(&self) -> String {
+        match self.name {
+            "SET" | "FSET" | "PSET" => format!("T {} {} {} {}", self.now, self.name, hex(&self.key), hex(&self.val)),
+            "SETPX" => format!("T {} SETPX {} {} {}", self.now, hex(&self.key), hex(&self.val), self.ms),
+            "DBSIZE" => format!("T {} DBSIZE", self.now),
+            _ => format!("T {} {} {}", self.now, self.name, hex(&self.key)),
         }
-        let r0 = r1(&st.execute(&c).await);
-        sim.advance_by(redis_sim::io::Duration::from_millis(200));
-        let r1_ = r1(&st.execute(&Command::Get(s(&k2))).await);
-        let r2 = r1(&st.fast_get(b(&k)).await);
-        let r3 = r1(&st.pooled_fast_get(b(&k)).await);
-        answers.push(vec![r0, r1_, r2, r3]);
     }
-    out.count("class:stale-clock-probe");
-    out.case(&format!("stale-clock|{}|{}", hex(&k), hex(&k2)), true);
-    if answers[0] != answers[1] {
+}
+
+async fn apply_timed(st: &State, op: &TOp) -> String {
+    match op.name {
+        "SET" => r1(&st.execute(&Command::set(s(&op.key), sds(&op.val))).await),
+        "SETPX" => {
+            let mut c = Command::set(s(&op.key), sds(&op.val));
+            if let Command::Set { ref mut px, .. } = c {
+                *px = Some(op.ms);
+            }
+            r1(&st.execute(&c).await)
+        }
+        "GET" => r1(&st.execute(&Command::Get(s(&op.key))).await),
+        "EXISTS" => r1(&st.execute(&Command::Exists(vec![s(&op.key)])).await),
+        "DBSIZE" => r1(&st.execute(&Command::DbSize).await),
+        "FGET" => r1(&st.fast_get(b(&op.key)).await),
+        "PGET" => r1(&st.pooled_fast_get(b(&op.key)).await),
+        "FSET" => r1(&st.fast_set(b(&op.key), b(&op.val)).await),
+        "PSET" => r1(&st.pooled_fast_set(b(&op.key), b(&op.val)).await),
+        x => panic!("timed op {}", x),
+    }
+}
+
+async fn run_timed_on(n: usize, ops: &[TOp]) -> Vec<String> {
+    let (st, sim) = new_state_ctx(n);
+    let mut now = 0u64;
+    let mut out = Vec::new();
+    for op in ops {
+        if op.now > now {
+            sim.advance_by(redis_sim::io::Duration::from_millis(op.now - now));
+            now = op.now;
+        }
+        out.push(apply_timed(&st, op).await);
+    }
+    out
+}
+
+fn top(now: u64, name: &'static str, key: &[u8], val: &[u8], ms: i64) -> TOp {
+    TOp { now, name, key: key.to_vec(), val: val.to_vec(), ms }
+}
+
+/// keys whose two routing hashes agree (so that a difference is not the routing defect)
+fn timed_keys(ctx: &Ctx, n: usize) -> Vec<Vec<u8>> {
+    pool().into_iter().filter(|k| ctx.gen(k, n) == h_bytes(k, n)).collect()
+}
+
+/// the witness: SET k v PX 100; +200 ms; GET k2 (another shard); fast_get k; pooled_fast_get k
+fn timed_corpus(ctx: &Ctx) -> (usize, Vec<TOp>) {
+    let n = 4;
+    let ks = timed_keys(ctx, n);
+    let k = ks[0].clone();
+    let k2 = ks.iter().find(|x| h_bytes(x, n) != h_bytes(&k, n)).unwrap().clone();
+    (
+        n,
+        vec![
+            top(0, "SETPX", &k, b"v", 100),
+            top(200, "GET", &k2, b"", 0),
+            top(200, "FGET", &k, b"", 0),
+            top(200, "PGET", &k, b"", 0),
+            top(200, "DBSIZE", b"", b"", 0),
+        ],
+    )
+}
+
+fn timed_random(ctx: &Ctx, rng: &mut Rng) -> (usize, Vec<TOp>) {
+    let n = *rng.pick(&[2usize, 4, 4, 8]);
+    let mut ks = timed_keys(ctx, n);
+    rng.shuffle(&mut ks);
+    let keys: Vec<Vec<u8>> = ks.into_iter().take(rng.range(2, 5) as usize).collect();
+    let mut now = 0u64;
+    let mut ops = Vec::new();
+    for _ in 0..rng.range(8, 30) {
+        if rng.chance(1, 2) {
+            now += *rng.pick(&[1u64, 20, 50, 99, 100, 101, 150, 300]);
+        }
+        let k = keys[rng.below(keys.len() as u64) as usize].clone();
+        let v = format!("v{}", rng.below(9)).into_bytes();
+        let op = match rng.below(12) {
+            0 | 1 | 2 => top(now, "SETPX", &k, &v, *rng.pick(&[1i64, 50, 100, 101, 200, 400])),
+            3 => top(now, "SET", &k, &v, 0),
+            4 | 5 => top(now, "GET", &k, b"", 0),
+            6 => top(now, "EXISTS", &k, b"", 0),
+            7 => top(now, "DBSIZE", b"", b"", 0),
+            8 => top(now, "FGET", &k, b"", 0),
+            9 => top(now, "PGET", &k, b"", 0),
+            10 => top(now, "FSET", &k, &v, 0),
+            _ => top(now, "PSET", &k, &v, 0),
+        };
+        ops.push(op);
+    }
+    (n, ops)
+}
+
+/// do the fast messages of the tree under test carry the virtual time?  (observed)
+async fn detect_carries(ctx: &Ctx) -> bool {
+    let (n, ops) = timed_corpus(ctx);
+    let r = run_timed_on(n, &ops).await;
+    r[2] == "nil"
+}
+
+async fn run_timed(out: &mut Out, ctx: &Ctx, carries: bool, n: usize, ops: &[TOp]) {
+    let a1 = run_timed_on(1, ops).await;
+    let an = run_timed_on(n, ops).await;
+    let mut u: BTreeSet<Vec<u8>> = BTreeSet::new();
+    for o in ops {
+        if o.name != "DBSIZE" {
+            u.insert(o.key.clone());
+        }
+    }
+    for (shards, ans) in [(1usize, &a1), (n, &an)] {
+        let mut l = format!("TNEW {} {} {}", shards, carries as u8, u.len());
+        for k in &u {
+            l.push_str(&format!(" {} {} {}", hex(k), h_bytes(k, shards), h_bytes(k, shards)));
+        }
+        out.op(l, "ok".into());
+        for (o, r) in ops.iter().zip(ans.iter()) {
+            out.count(&format!("op:T:{}", o.name));
+            out.op(o.line(), r.clone());
+        }
+    }
+    out.count("class:timed");
+    let lines: Vec<String> = ops.iter().map(|o| o.line()).collect();
+    if let Some(i) = (0..ops.len()).find(|&i| a1[i] != an[i]) {
+        let fast_involved = ops.iter().any(|o| matches!(o.name, "FGET" | "PGET" | "FSET" | "PSET"));
+        let sig = if !carries && fast_involved { "C03:fast-path-stale-clock".to_string() } else { format!("C03:unexplained:timed:{}", ops[i].name) };
         out.violation(
-            "C03:fast-path-stale-clock",
-            &format!("SET {} v PX 100; +200 ms; GET {}; fast_get {}: one shard answers {:?}, {} shards answer {:?}", hex(&k), hex(&k2), hex(&k), answers[0], n, answers[1]),
-            json!({"shards": n, "ops": [format!("SET {} v PX 100", hex(&k)), "advance 200ms", format!("GET {}", hex(&k2)), format!("FGET {}", hex(&k)), format!("PGET {}", hex(&k))], "one_shard": answers[0], "n_shards": answers[1]}),
+            &sig,
+            &format!("{} shards answer `{}` with {} where one shard answers {}", n, lines[i], an[i], a1[i]),
+            json!({"shards": n, "ops": lines, "first_difference_at": i, "one_shard": a1, "n_shards": an}),
         );
     }
+    let expiring = ops.iter().any(|o| o.name == "SETPX") && ops.last().map(|o| o.now > 0).unwrap_or(false);
+    out.case(&format!("timed|{}|{}", n, lines.join(";")), expiring);
+    out.sample(json!({"shards": n, "class": "timed", "ops": lines.iter().take(12).collect::<Vec<_>>()}));
+    let _ = ctx;
 }
 
 pub fn run(a: &Args) {
@@ -715,12 +835,19 @@ pub fn run(a: &Args) {
         for c in corpus(&ctx) {
             run_case(&mut out, &ctx, &c).await;
         }
-        stale_clock_probe(&mut out, &ctx).await;
+        let carries = detect_carries(&ctx).await;
+        out.extra.insert("fast_messages_carry_virtual_time".into(), json!(carries));
+        let (tn, tops) = timed_corpus(&ctx);
+        run_timed(&mut out, &ctx, carries, tn, &tops).await;
         for _ in 0..a.n {
             let mut r = rng.fork();
             let c = random_case(&ctx, &mut r);
             run_case(&mut out, &ctx, &c).await;
+            if r.chance(1, 6) {
+                let (tn, tops) = timed_random(&ctx, &mut r);
+                run_timed(&mut out, &ctx, carries, tn, &tops).await;
+            }
         }
     });
-    out.finish("case = one command sequence (8..40 ops over 3..9 keys; corpus cases up to 80 ops) run on real ShardedActorState instances with 1 and N ∈ {2,3,4,8,16} shards and on the model: single-key string/list commands, MGET/MSET/DEL/EXISTS fan-out, KEYS/DBSIZE/FLUSH, fast/pooled/batch byte paths (incl. non-UTF-8 keys), two-key commands, MSETNX, SCAN, RANDOMKEY; distinct by shard count + op text; non-trivial iff its keys live on ≥ 2 shards and it contains a fan-out, byte-path or two-key command");
+    out.finish("case = one command sequence (8..40 ops over 3..9 keys; corpus cases up to 80 ops) run on real ShardedActorState instances with 1 and N ∈ {2,3,4,8,16} shards and on the model: single-key string/list commands, MGET/MSET/DEL/EXISTS fan-out, KEYS/DBSIZE/FLUSH, fast/pooled/batch byte paths (incl. non-UTF-8 keys), two-key commands, MSETNX, SCAN, RANDOMKEY; plus timed streams (SET [PX], GET, EXISTS, DBSIZE, fast/pooled GET/SET with the simulated clock advanced between commands; non-trivial iff a TTL is set and time passes); distinct by shard count + op text; non-trivial iff its keys live on ≥ 2 shards and it contains a fan-out, byte-path or two-key command");
 }
